@@ -330,7 +330,8 @@ def _run_cfg(seed, tier, extra_cases, use_cache, label):
                    "fresh_same": bool(e.get("fresh_same")), "fresh_diff": str(e.get("fresh_diff", "")),
                    "has_hook": bool(e.get("has_hook")), "frames": [], "res_path": "", "res_line": 0, "exp_path": "", "exp_line": 0,
                    "kind": "", "line": 0, "col": 0, "res_col": 0, "toks": [], "probes": [],
-                   "cfg_same": bool(e.get("cfg_same", True)), "cfg_got": str(e.get("cfg_got", ""))}
+                   "cfg_same": bool(e.get("cfg_same", True)), "cfg_got": str(e.get("cfg_got", "")),
+                   "enclosing_bad": str(e.get("enclosing_bad", "")), "enclosing_checked": int(e.get("enclosing_checked", 0) or 0)}
             if e["op"] == "probe":
                 rec["probes"] = [{"l": int(q[0]), "c": int(q[1]), "path": str(q[2]), "line": int(q[3] or 0), "col": int(q[4] or 0)}
                                  for q in e.get("results", [])]
